@@ -78,18 +78,18 @@ EXTRA = {
     "C04": " The scope programs of the big corpus (caller variables named like branches, a sibling's name read by a plain closure of a later step) also run here.",
     "C05": " Every fifth unnamed program under `join!` / `try_join!` stands in a loop of the caller whose first values `continue` / `break` it; one `continue` is taken once per run and the invocation must complete in the caller's next iteration.",
     "C08": " Zoo twins under the thread kinds whose steps all have every branch active must not log a callback on the calling thread (also for steps opened by deferred operand-less operators behind lazy iterator closures); nested spawn twins run a second time from a differently named caller; `lazy_branches(false)` twins. 'The caller continues' covers the next step as well as the code after the macro: no step-k+1 event before the last chain event of a step-k thread or while a step-k gate is held; gated runs also under single-failure plans of the try kinds.",
-    "C09": " Every async instantiation also runs ungated under other polling contexts (multi-thread `block_on`, `futures::executor::block_on` nested in a runtime, `block_in_place`, `LocalSet`, current-thread `block_on`, futures executors, and tokio polling the future next to a sibling that exhausts the coop budget). In the task kinds the future is created in turn inside the polling runtime, in plain synchronous code, and inside the context of another idle runtime; it is always polled on the harness runtime.",
+    "C09": " Every async instantiation also runs ungated under other polling contexts (multi-thread `block_on`, `futures::executor::block_on` nested in a runtime, `block_in_place`, `LocalSet`, current-thread `block_on`, futures executors, and tokio polling the future next to a sibling that exhausts the coop budget). In the task kinds the future is created in turn inside the polling runtime, in plain synchronous code, and inside the context of another idle runtime; it is always polled on the harness runtime. Bare programs (branches that are only their initial value, alone and next to ordinary branches) are part of the laziness and progress workload.",
     "C11": " Captures also together with custom joiners (eager and lazy branches) and in the large-index programs of the big corpus (capture sequence over one- and two-digit positions). Block captures are also forwarded as `$e:expr` fragments of a user macro_rules (they are still block captures).",
     "C12": " `let mut` names are observed through `&mut`; names also together with custom joiners and lazy branches.",
     "C13": " Handlers (and operands) are also forwarded as `$e:expr` fragments of a user macro_rules (None-delimited groups). A handler that does not fit the macro kind must be a diagnostic; a generator panic is a violation whatever its message.",
-    "C14": " The same structures are also parsed with operands as None-delimited groups (macro_rules fragments).",
+    "C14": " The same structures are also parsed with operands as None-delimited groups (macro_rules fragments). Operands that start with a non-empty bracket group (`[f, g][1]`) are admitted behind every operator (`=>[]` is the collect operator only with empty brackets).",
     "C16": " Sync `transpose_results(false)` programs are multi-step (steps continue from the unwrapped value); function joiners with lazy branches span several joined steps. Joiners are also written as function path, generic path, `receiver.method`, method on a call result, parenthesized closure and call expression (sync kinds, arity 2). Also bare closures (with and without `move`) as joiners.",
-    "C17": " Nested thread-spawning macros meet at a rendezvous (their branches must be alive together although nested); a 6- / 11-branch inner macro is nested in operand position of the outer kinds.",
+    "C17": " Nested thread-spawning macros meet at a rendezvous (their branches must be alive together although nested); a 6- / 11-branch inner macro is nested in operand position of the outer kinds. The rustc corpus of C07 (own prelude names, lower-case constants named like internal bindings, `#![no_implicit_prelude]`) guards the hygiene repairs of section 5, rows 13 and 20.",
     "C19": " The bounds programs also come in wide (5 / 8 / 12-branch) forms. `??` callbacks that mutate caller locals are part of the caller-stack matrix.",
     "C18": " The first panic positions of every task-kind case are also run with tokio itself polling the macro's future (multi-thread runtime; next to a sibling that exhausts the coop budget).",
     "C20": " The second process of the cross-process comparison runs inside a hostile package directory (manifest with renamed tokio / futures / join, cargo config) as cwd and CARGO_MANIFEST_DIR. Rejected inputs count as invocations: their complete diagnostics are compared, including inputs with several different mistakes at once.",
     "C10": " Cancellation runs: in fully gated runs of the async kinds the macro's future is dropped at every quiescent pending point in turn; the token ledger must be empty right after the drop (task kinds: after the detached tasks ran out and the runtime is gone) and what ran before is a prefix of the model.",
-    "C15": " No generator panic is whitelisted (a handler / option that does not fit the macro kind must come out as a diagnostic).",
+    "C15": " No generator panic is whitelisted (a handler / option that does not fit the macro kind must come out as a diagnostic)." Labelled classes also: a `~` inside an operand that is not complete yet, `let` names with a subpattern.,
 }
 
 NOT_YET = "check not built yet (framework under construction; see DESIGN.md section 8)"
